@@ -92,7 +92,8 @@ def baseCopies : List (String × List String) := [
   ("StateFile", ["url.host = base.host", "url.path = base.path", "url.query = base.query"]),
   ("StateFileSlash", ["url.host = base.host"]),
   ("StateNoScheme", ["url.path = base.path", "url.query = base.query", "url.scheme = base.scheme"]),
-  ("StateRelative", ["url.decodedPort = base.decodedPort", "url.host = base.host", "url.password = base.password", "url.path = base.path", "url.port = base.port", "url.query = base.query", "url.scheme = base.scheme", "url.username = base.username"])]
+  ("StateRelative", ["url.decodedPort = base.decodedPort", "url.host = base.host", "url.password = base.password", "url.path = base.path", "url.port = base.port", "url.query = base.query", "url.scheme = base.scheme", "url.username = base.username"]),
+  ("StateRelativeSlash", ["url.decodedPort = base.decodedPort", "url.host = base.host", "url.password = base.password", "url.port = base.port", "url.username = base.username"])]
 
 def parserOptionWrites : List (String × List String) := [
   ("WithReportValidationErrors", ["reportValidationErrors"]),
